@@ -72,8 +72,11 @@ def body_structure(case, rec, H=None):
     from synkit.CRN.Hypergraph.conversion import hypergraph_to_bipartite
 
     G = hypergraph_to_bipartite(H)
-    if {frozenset(x) for x in find_siphons(G)} != set(siph) or {frozenset(x) for x in find_traps(G)} != set(trap):
-        raise Violation("bipartite-input", f"{crn_gen.rx_str(case)}: bipartite-graph input gives different siphons/traps")
+    # the arcs carry their meaning in the 'role' attribute (as build_S documents), so the same role-labelled graph
+    # with every arc reversed is the same network (an undirected copy is NOT: it merges the two arcs of a catalyst)
+    for how, Gx in (("as exported", G), ("arcs reversed", G.reverse(copy=True))):
+        if {frozenset(x) for x in find_siphons(Gx)} != set(siph) or {frozenset(x) for x in find_traps(Gx)} != set(trap):
+            raise Violation("bipartite-input", f"{crn_gen.rx_str(case)}: bipartite-graph input ({how}) gives different siphons/traps")
 
 
 def body_structure_after_edit(case, rec):
